@@ -13,6 +13,13 @@ recognised is not delivered."
 
 "packet" = any `p : Bytes` with `p.length = 188`; nothing else is assumed about its bytes.
 
+READING of "stream-start occurs exactly once".  What is proved is: stream-start occurs AT MOST once
+in every run (`start_at_most_once`), BEFORE any packet-begin (`start_before_begin`), and EXACTLY once
+in every run that delivers a packet-begin at all (`start_exactly_once`, hypothesis `hb`).  ZERO
+stream-starts do occur: on a PID that never carries a payload_unit_start packet the consumer is never
+started (evaluated example after `start_exactly_once`: two continuation packets, no callback at all),
+so the literal "exactly once for any packet sequence" is false of the code and is not claimed.
+
 READING of the last clause (a choice, stated here so nobody has to infer it).  "Could not be
 recognised" is read as: the unit-start packet produced no `begin_packet`, which happens exactly when
 the packet has no payload or `PesHeader::from_bytes` returned `None` (fewer than 6 payload bytes or a
@@ -78,7 +85,9 @@ variable {f' : F} {ps : List Bytes} {evss : List (List Ev)}
   (h : ∀ p ∈ ps, p.length = 188) (hr : run {} ps = .ok (f', evss))
 include h hr
 
-/-- stream-start is signalled at most once … -/
+/-- stream-start is signalled AT MOST once in the whole run from the freshly constructed filter — this,
+not "exactly once", is what holds for EVERY packet sequence: the count is 0 when no packet of the run
+has `payload_unit_start_indicator` set (and in general until the first such packet) … -/
 theorem start_at_most_once : evss.flatten.count .start ≤ 1 :=
   Protocol.start_at_most_once (callbacks_well_nested_init f' ps evss h hr)
 
@@ -93,7 +102,10 @@ theorem start_before_begin (pre post : List Ev) (o l : Nat)
   have := (step_begin hm').2; subst this
   exact (no_start_after_started hrest (by simp)).1
 
-/-- stream-start occurs exactly once in any trace that delivers a packet at all -/
+/-- "exactly once", CONDITIONALLY: stream-start occurs exactly once in any run whose trace contains a
+`begin_packet` (hypothesis `hb`).  Without `hb` only `start_at_most_once` holds; a run with no
+`begin_packet` may contain one stream-start (unit start with an unrecognisable header) or none (no
+unit start on the PID: example below). -/
 theorem start_exactly_once (o l : Nat) (hb : Ev.beginPkt o l ∈ evss.flatten) :
     evss.flatten.count .start = 1 := by
   obtain ⟨pre, post, hs⟩ := List.append_of_mem hb
@@ -102,6 +114,15 @@ theorem start_exactly_once (o l : Nat) (hb : Ev.beginPkt o l ∈ evss.flatten) :
   have h1 := start_at_most_once h hr
   have h2 : 0 < evss.flatten.count .start := List.count_pos_iff.mpr hmem
   omega
+
+/-- ZERO stream-starts: a PID that carries only continuation packets (no unit start) — no callback at
+all, in particular no `start`; ONE stream-start without any `begin_packet`: a unit start whose payload
+has no PES start code.  So `hb` in `start_exactly_once` cannot be dropped. -/
+example :
+    run {} [mkPkt 0x00 0x10 [], mkPkt 0x00 0x11 []] = .ok (⟨some 1, .begin⟩, [[], []])
+    ∧ ([[], []] : List (List Ev)).flatten.count .start = 0
+    ∧ run {} [mkPkt 0x40 0x10 [0, 0, 2, 0xe0, 0, 0], mkPkt 0x00 0x11 []]
+        = .ok (⟨some 1, .ignoreRest⟩, [[.start], []]) := by decide +kernel
 
 /-- continuation data and packet-end occur only while a packet opened by packet-begin is open:
 the nearest preceding non-continuation callback is a packet-begin -/
@@ -230,6 +251,39 @@ theorem unrecognised_header_not_delivered_anywhere (pre : List Bytes) (p : Bytes
     · exact hps q hq
   exact unrecognised_header_not_delivered_run (runPure {} pre).1 _ p ps _ _ hp hps
     (run_eq' _ (p :: ps) hall') hus hnb mid rest hsplit hmid
+
+/-- NON-VACUITY of `unrecognised_header_not_delivered_anywhere`: prefix = a good unit start (PES packet
+opened); `p` = a unit start whose payload has start code `00 00 02` (not recognised: it closes the open
+packet with `end_packet` and produces no `begin_packet`); then a continuation packet and a good unit
+start.  The run is evaluated, the theorem APPLIED to it: the block `e1` of `p` is `[endPkt]`, and with
+`mid` = the (empty) block of the continuation packet it yields: no continuation data in `e1 ++ mid`,
+no `end_packet` in `mid` — the continuation packet's 184 bytes are not delivered. -/
+example : ∃ f' evss epre e1 epost,
+    run {} ([mkPkt 0x40 0x10 pesStart] ++ mkPkt 0x40 0x11 [0, 0, 2, 0xe0, 0, 0]
+        :: [mkPkt 0x00 0x12 [], mkPkt 0x40 0x13 pesStart]) = .ok (f', evss)
+    ∧ evss = [[.start, .beginPkt 4 184], [.endPkt], [], [.beginPkt 4 184]]
+    ∧ evss = epre ++ e1 :: epost ∧ epre.length = 1 ∧ e1 = [.endPkt]
+    ∧ (∀ o l, Ev.cont o l ∉ e1 ++ ([] : List Ev)) ∧ Ev.endPkt ∉ ([] : List Ev) := by
+  have hr : run {} ([mkPkt 0x40 0x10 pesStart] ++ mkPkt 0x40 0x11 [0, 0, 2, 0xe0, 0, 0]
+        :: [mkPkt 0x00 0x12 [], mkPkt 0x40 0x13 pesStart])
+      = .ok (⟨some 3, .started⟩, [[.start, .beginPkt 4 184], [.endPkt], [], [.beginPkt 4 184]]) := by
+    decide +kernel
+  obtain ⟨epre, e1, epost, he, hl, hcl⟩ := unrecognised_header_not_delivered_anywhere
+    [mkPkt 0x40 0x10 pesStart] (mkPkt 0x40 0x11 [0, 0, 2, 0xe0, 0, 0])
+    [mkPkt 0x00 0x12 [], mkPkt 0x40 0x13 pesStart] _ _ (by decide +kernel) (by decide +kernel)
+    (by decide +kernel) hr (by decide +kernel)
+  -- `epre` has one block, so `e1` is the second block of the evaluated trace
+  obtain ⟨x, rfl⟩ : ∃ x, epre = [x] := by
+    cases epre with
+    | nil => cases hl
+    | cons x xs => cases xs with
+      | nil => exact ⟨x, rfl⟩
+      | cons _ _ => simp at hl
+  simp only [List.cons_append, List.nil_append, List.cons.injEq] at he
+  obtain ⟨rfl, rfl, rfl⟩ := he
+  have := hcl (by intro o l h; simp at h) [] [Ev.beginPkt 4 184] (by simp) (by simp)
+  exact ⟨_, _, [[.start, .beginPkt 4 184]], [.endPkt], [[], [.beginPkt 4 184]], hr, rfl, rfl, rfl, rfl,
+    this.1, this.2⟩
 
 /-! ### exactly when `begin_packet` is delivered, and with which bytes -/
 
